@@ -47,7 +47,7 @@ try:
         if os.path.dirname(rel):            # delivered under its tree-relative path
             d = os.path.dirname(rel)
         if d is None:
-            m = re.search(re.escape(f) + r'\s*-+>\s*(?:<pd tree>/)?((?:server|pkg|client)[\w/\-\.]*?)/([\w\-\.]+_test\.go)', demo_txt)
+            m = re.search(re.escape(f) + r'\s*-+>\s*(?:<pd(?: tree)?>/)?((?:server|pkg|client)[\w/\-\.]*?)/([\w\-\.]+_test\.go)', demo_txt)
             if m:
                 d, target = m.group(1), m.group(2)
         if d is None:
@@ -64,7 +64,7 @@ try:
     cmds = []
     for l in demo_txt.splitlines():
         t = l.strip().lstrip('#').strip().strip('`')
-        t = re.sub(r'^or:\s*', '', t)
+        t = re.sub(r'^(or:|run)\s*', '', t)
         if t.startswith('go test') or t.startswith('go run'):
             cmds.append(t)
     assert cmds, 'no go test command in demo.txt'
